@@ -5,6 +5,7 @@ mod c02;
 mod c04;
 mod c06;
 mod c07;
+mod c07r;
 mod c11;
 mod c12;
 mod c16;
